@@ -247,3 +247,17 @@ func lemmaDeclaredLengthTooLarge(in []byte) {
 	res, m := ConsumeVarintBytes(in)
 	Vassert(res == nil && m == -1)
 }
+
+// Exported aliases of the specification functions for contracts in other packages.
+
+//@ spec
+func ConsumeVarintOK(b string) bool { return specVarintOK(b) }
+
+//@ spec
+func ConsumeVarintValue(b string) uint64 { return specVarintValue(b) }
+
+//@ spec
+func ConsumeVarintLen(b0 byte) int { return specVarintLen(b0) }
+
+//@ spec
+func SpecSizeVarint(v uint64) int { return specSizeVarint(v) }
